@@ -19,12 +19,14 @@ Definition ex_req : creq := {|
   env := [(bs "SCCACHE_C_CUSTOM_CACHE_BUSTER", bs "1"); (bs "HOME", bs "/root"); (bs "CPATH", bs "/opt/include")];
   pp := bs "# 1 ""x.c""
 int x;";
-  path := bs "/src/x.c"; input := bs "int x;"; ignore_time := false |}.
+  path := bs "/src/x.c"; input := bs "int x;"; ignore_time := false;
+  date := (2026, 9, 30); sde := None; mtime := (1700000000, 5) |}.
 
 (* the same, with nothing between the language tag and the tail *)
 Definition bare_req : creq := {|
   digest := hex_a; plusplus := false; lang := bs "C"; args := []; extra := []; env := [];
-  pp := bs "int x;"; path := bs "/x.h"; input := bs "int x;"; ignore_time := false |}.
+  pp := bs "int x;"; path := bs "/x.h"; input := bs "int x;"; ignore_time := false;
+  date := (2026, 9, 30); sde := None; mtime := (1700000000, 5) |}.
 
 Example ex_req_wf_c : wf_c the_spec ex_req = true.
 Proof. vm_compute; reflexivity. Qed.
@@ -36,6 +38,18 @@ Example ex_req_filtered_env :
   fenv (allow_main the_spec) ex_req = [(bs "SCCACHE_C_CUSTOM_CACHE_BUSTER", bs "1")]
   /\ fenv (allow_pp the_spec) ex_req = [(bs "SCCACHE_C_CUSTOM_CACHE_BUSTER", bs "1"); (bs "CPATH", bs "/opt/include")].
 Proof. vm_compute; split; reflexivity. Qed.
+
+(* the time salt: seen only when the file mentions the macro *)
+Definition ex_dated : creq := set_input ex_req (bs "const char *b = __DATE__ "" "" __TIMESTAMP__;").
+
+Example ex_salt_views :
+  salt_view ex_req = None /\
+  salt_view ex_dated = Some (Some ((2026, 9, 30), []), Some (1700000000, 5)) /\
+  salt_view (set_times ex_dated (2026, 10, 1) (Some (bs "0")) (1700000000, 6))
+  = Some (Some ((2026, 10, 1), bs "0"), Some (1700000000, 6)) /\
+  salt_view (set_times ex_req (2026, 10, 1) (Some (bs "0")) (1700000000, 6)) = None /\
+  wf_p the_spec ex_dated = true /\ gated the_spec ex_dated = false.
+Proof. vm_compute. repeat split; reflexivity. Qed.
 
 (* --- recorded refutations: the full statement is false without pp_ok / extra_pp_ok / path_ok *)
 
@@ -78,11 +92,40 @@ Lemma pp_lang_path_boundary_refuted :
     common_ok the_spec r1 = true /\ common_ok the_spec r2 = true /\
     env_ok (allow_pp the_spec) r1 = true /\ env_ok (allow_pp the_spec) r2 = true /\
     abs_path (path r1) = true /\ abs_path (path r2) = true /\ nonul (path r1) = true /\ nonul (path r2) = true /\
+    path_tail_ok (path r1) = true /\ path_tail_ok (path r2) = true /\ time_ok r1 = true /\ time_ok r2 = true /\
     canon_p the_spec r1 <> canon_p the_spec r2 /\
     forall H, encode_pp H the_spec r1 = encode_pp H the_spec r2.
 Proof.
   exists s10d_1, s10d_2. repeat split; try (vm_compute; reflexivity).
   vm_compute. intro E. discriminate E.
+Qed.
+
+(* The digest component is  digest  or  digest "-" digest  right after the undelimited path: a path that itself ends
+   in 64 hex digits and "-" can take the place of the first form's ... reason for path_tail_ok.
+   r2: file mentioning __DATE__ at /x.h;  r1: the file whose CONTENTS are r2's inner time pre-image, at the path
+   /x.h<digest of r2's contents>-  (for any H with 64-hex values). *)
+Definition tail_2 : creq := set_input bare_req (bs "__DATE__").
+Definition tail_1 (H : bytes -> bytes) : creq :=
+  set_path (set_input bare_req (time_pre tail_2)) (path bare_req ++ H (input tail_2) ++ [45]).
+
+Lemma pp_path_tail_refuted :
+  forall H : bytes -> bytes, (forall x, is_hex64 (H x) = true) ->
+  exists r1 r2,
+    common_ok the_spec r1 = true /\ env_ok (allow_pp the_spec) r1 = true /\ abs_path (path r1) = true /\
+    nonul (path r1) = true /\ no_tag_ext_path the_spec (lang r1) (path r1) = true /\ time_ok r1 = true /\
+    wf_p the_spec r2 = true /\
+    input r1 <> input r2 /\
+    encode_pp H the_spec r1 = encode_pp H the_spec r2.
+Proof.
+  intros H Hh. exists (tail_1 H), tail_2.
+  repeat split; try (vm_compute; reflexivity).
+  - unfold tail_1. cbn [path set_path]. rewrite !nonul_app, (hex64_nonul _ (Hh _)). vm_compute. reflexivity.
+  - vm_compute. intro E. discriminate E.
+  - rewrite !(encode_pp_eq H the_spec _ the_spec_shape_p). unfold idig.
+    replace (salted (tail_1 H)) with false by (vm_compute; reflexivity).
+    replace (salted tail_2) with true by (vm_compute; reflexivity).
+    unfold tail_1. cbn [path input digest plusplus lang set_path set_input]. unfold toks, fenv.
+    cbn [args extra env set_path set_input]. rewrite <- !app_assoc. reflexivity.
 Qed.
 
 (* S10a (repaired by a fix: commit): with ObjectiveCxxHeader rendered as "objc++" again, tags_ok fails and two
